@@ -163,7 +163,7 @@ def assumed_edges(body, assume):
         for c in body.calls_to(pat):
             if c.dest is None or c.dest[1]:
                 continue
-            for (bb, truth_when_nonzero) in bool_uses(body, c.dest[0]):
+            for (bb, truth_when_nonzero) in bool_uses_through(body, c.dest[0]):
                 t = body.term(bb)
                 zero_t = None
                 for v in t["vals"]:
@@ -181,6 +181,35 @@ def assumed_edges(body, assume):
                     if zero_t != nz_t:
                         drop.add((bb, nz_t))
     return drop
+
+
+def bool_uses_through(body, local):
+    """bool_uses of `local` and of the values obtained from it through `?`, unwrap/expect and payload reads
+    (`let b = call()?; if b {..}`)"""
+    out = list(bool_uses(body, local))
+    frontier = [local]
+    seen = {local}
+    while frontier:
+        l = frontier.pop()
+        nxt = []
+        for c in body.calls:
+            if TRANSPARENT.search(c.callee) and c.args and "p" in c.args[0] and c.args[0]["p"][0] == l and c.dest and not c.dest[1]:
+                nxt.append(c.dest[0])
+        for blk in body.blocks:
+            for st in blk["s"]:
+                rv = st[1]
+                if st[0][1]:
+                    continue
+                if rv.get("k") == "use" and "p" in rv["o"] and rv["o"]["p"][0] == l and rv["o"]["p"][1]:
+                    # payload read: (x as Continue).0 / (x as Some).0 / (x as Ok).0
+                    if any(pr.startswith("as ") for pr in rv["o"]["p"][1]):
+                        nxt.append(st[0][0])
+        for n in nxt:
+            if n not in seen:
+                seen.add(n)
+                frontier.append(n)
+                out += bool_uses(body, n)
+    return out
 
 
 def bool_uses(body, local, parity=True, seen=None):
@@ -933,3 +962,69 @@ def expr_sig(body, op, depth=0, seen=None, out=None):
 def arith_of(body, op):
     """ops and literals only (sorted)"""
     return sorted(x for x in expr_sig(body, op) if x.startswith("op:") or x.startswith("lit:"))
+
+
+def must_fail(R, key, body, assume=(), drop_edges=(), what="", start=0, extra_err=()):
+    """Under the assumptions no success return is reachable (every path ends in an error exit or diverges)."""
+    R.fn(body)
+    drop = assumed_edges(body, assume) | set(drop_edges)
+    if assume and not assumed_edges(body, assume):
+        R.bad(key + "/anchor-lost", "%s: no branch on %s found in %s" % (what or "must-fail", [a[0] for a in assume], body.path), [body.where()])
+        return False
+    err = body.error_exit_blocks(extra_err)
+    reach, prev = reach_with(body, start, avoid=err, drop_edges=drop)
+    bad = reach & set(body.return_blocks())
+    R.sites += len(err)
+    if bad:
+        R.bad(key, "%s: %s can still return successfully" % (what or "must-fail", body.path), path_lines(body, prev, sorted(bad)[0]))
+        return False
+    R.ok(key, "%s: %s has no success path under %s" % (what or "must-fail", short(body.path), [(label(a[0]), a[1]) for a in assume]), [body.where(b) for b in sorted(err)[:3]])
+    return True
+
+
+def def_sig(body, d):
+    """arithmetic signature (ops, literals, leaves) of one definition (as returned by body.defs())"""
+    out = []
+    if d[0] == "assign":
+        rv = d[3]
+        k = rv.get("k")
+        if k in ("use", "cast"):
+            expr_sig(body, rv["o"], 0, None, out)
+        elif k == "ref":
+            expr_sig(body, {"p": rv["p"]}, 0, None, out)
+            for pr in rv["p"][1]:
+                if pr.startswith(".") and not pr.startswith(".#"):
+                    out.append("field:" + pr.split(".")[-1])
+        elif k == "bin":
+            if rv["op"] in ARITH_OPS:
+                out.append("op:" + rv["op"].replace("WithOverflow", "").replace("Unchecked", "").lower())
+            expr_sig(body, rv["a"], 0, None, out)
+            expr_sig(body, rv["b"], 0, None, out)
+        elif k == "agg":
+            for o in rv.get("ops", []):
+                expr_sig(body, o, 0, None, out)
+    else:
+        c = d[2]
+        if ARITH_CALL.search(c.callee):
+            out.append("op:" + c.callee.split("::")[-1])
+            for a in c.args:
+                expr_sig(body, a, 0, None, out)
+        elif TRANSPARENT.search(c.callee) and c.args:
+            expr_sig(body, c.args[0], 0, None, out)
+        else:
+            out.append("leaf:call:" + (c.res or c.callee))
+            # literal arguments of a leaf call are part of its form (new_proposed(header, 1))
+            for a in c.args:
+                if "p" not in a and a.get("v") is not None:
+                    out.append("lit:" + str(a["v"]))
+    return sorted(out)
+
+
+def arm_defs(body, start_bb, local, stop=()):
+    """definitions of `local` reachable from start_bb before control merges into `stop` blocks"""
+    out = []
+    reach = body.reachable(start_bb, avoid=stop)
+    for d in body.defs().get(local, []):
+        if d[1] in reach:
+            out.append(d)
+    return out
